@@ -133,6 +133,29 @@ def to_repr(interp, v: Any) -> Any:
     return sstr(Atom("repr", nonempty=True))
 
 
+def concat_bytes(interp, a: Any, b: Any) -> Any:
+    """bytes + serialised frame (+ bytes ...): kept as an ordered list of parts."""
+    parts = []
+    for x in (a, b):
+        if isinstance(x, ExtObj) and x.kind == "bytes:cat":
+            parts.extend(x.attrs["parts"])
+        elif isinstance(x, AList) and x.kind == "bytearray":
+            parts.append(bytes(x.items))
+        else:
+            parts.append(x)
+    merged: list = []
+    for p in parts:
+        if isinstance(p, bytes) and merged and isinstance(merged[-1], bytes):
+            merged[-1] = merged[-1] + p
+        elif not (isinstance(p, bytes) and not p):
+            merged.append(p)
+    if not merged:
+        return b""
+    if len(merged) == 1:
+        return merged[0]
+    return ExtObj("bytes:cat", {"parts": merged})
+
+
 def concat_chunks(a: ExtObj, b: Any) -> ExtObj:
     if isinstance(b, bytes) and not b:
         return a
@@ -174,6 +197,18 @@ def _len(interp, v: Any) -> Any:
             return r
         if v.kind == "bytes:header":
             return len(v.attrs["data"])
+        if v.kind == "bytes:frame":
+            if isinstance(v.attrs.get("size"), int):
+                return v.attrs["size"]
+            return Unknown(("frame-len", v.uid), "length of a serialised frame")
+        if v.kind == "bytes:cat":
+            total = 0
+            for p in v.attrs["parts"]:
+                n = _len(interp, p)
+                if not isinstance(n, int):
+                    return Unknown(("cat-len", v.uid), "length of concatenated bytes")
+                total += n
+            return total
         if v.kind == "bytes:chunk":
             if v.attrs.get("exact") and isinstance(v.attrs.get("n"), int):
                 return v.attrs["n"]
@@ -287,7 +322,7 @@ def _b_type(interp, args, kwargs):
     if isinstance(v, tuple):
         return ExtRef("builtins.tuple")
     if isinstance(v, AList):
-        return ExtRef("builtins.list" if v.kind == "list" else "collections.deque")
+        return ExtRef({"list": "builtins.list", "bytearray": "builtins.bytearray"}.get(v.kind, "collections.deque"))
     if isinstance(v, ADict):
         return ExtRef("builtins.dict" if v.kind == "dict" else "collections.OrderedDict")
     if isinstance(v, bytes):
@@ -474,14 +509,30 @@ def _b_bytes(interp, args, kwargs):
     v = args[0]
     if isinstance(v, bytes):
         return v
-    if isinstance(v, AList) and all(isinstance(x, int) for x in v.items):
-        return bytes(v.items)
+    if isinstance(v, (AList, tuple)) and all(isinstance(x, int) and not isinstance(x, bool) for x in (v.items if isinstance(v, AList) else v)):
+        try:
+            return bytes(v.items if isinstance(v, AList) else v)
+        except ValueError:
+            raise interp.exc("ValueError", "bytes must be in range(0, 256)")
+    if isinstance(v, ExtObj) and v.kind.startswith("bytes:"):
+        return v
     if isinstance(v, int):
         interp.emit("alloc", what="bytes(n)", size=v)
         return bytes(min(v, 1 << 16))
     if isinstance(v, Unknown):
         interp.emit("alloc", what="bytes(n)", size=v)
     return fresh_unknown("bytes()")
+
+
+def _b_bytearray(interp, args, kwargs):
+    if not args:
+        return AList([], kind="bytearray")
+    v = args[0]
+    if isinstance(v, bytes):
+        return AList(list(v), kind="bytearray")
+    if isinstance(v, AList) and all(isinstance(x, int) for x in v.items):
+        return AList(list(v.items), kind="bytearray")
+    raise interp.unsupported(f"bytearray({v!r})")
 
 
 def _b_object_setattr(interp, args, kwargs):
@@ -840,6 +891,8 @@ def _parse_length_prefixed(interp, args, kwargs):
         first = interp.call(interp.getattr(inp, "read"), [1], {})
         if not interp.truth(first, "length-prefix byte"):
             return None
+        if isinstance(first, ExtObj) and first.kind == "bytes:chunk" and first.attrs.get("data") == b"\x00":
+            return src.attrs.pop("empty_frame_body")
         body = interp.call(interp.getattr(inp, "read"), [5], {})
         if isinstance(body, ExtObj) and body.kind == "bytes:chunk":
             interp.emit("parse_input", exact=bool(body.attrs.get("exact")), via=body.attrs.get("via"), n=body.attrs.get("n"))
@@ -866,6 +919,11 @@ def _parse(interp, args, kwargs):
         if not ok:
             return new_msg(interp, cls.mtype, [], {})
         return fr
+    if isinstance(data, bytes) and not data:
+        return new_msg(interp, cls.mtype, [], {})
+    if isinstance(data, ExtObj) and data.kind == "bytes:chunk" and data.attrs.get("data") == b"":
+        fr = data.attrs.get("frame")
+        return fr if fr is not None else new_msg(interp, cls.mtype, [], {})
     if isinstance(data, ExtObj) and data.kind in ("bytes:chunk", "bytes:header") and isinstance(data.attrs.get("stream"), ExtObj):
         # a frame body read by pyjelly's own code (not by protobuf's length-prefixed reader)
         src = data.attrs["stream"]
@@ -876,6 +934,22 @@ def _parse(interp, args, kwargs):
             raise interp.exc("DecodeError", "Error parsing message")
         return fr
     raise AnalysisError(f"protobuf parse() of {data!r}: the analysis cannot tell which bytes these are")
+
+
+def _msg_has_content(m: Msg) -> bool:
+    for k, v in m.fields.items():
+        if isinstance(v, AList):
+            if v.items:
+                return True
+        elif isinstance(v, Msg):
+            if k in m.present:
+                return True
+        elif isinstance(v, ADict):
+            if v.pairs:
+                return True
+        elif v not in (0, "", b"", False, None):
+            return True
+    return False
 
 
 def _frames_remaining(interp, root: ExtObj) -> bool:
@@ -998,6 +1072,7 @@ _EXT = {
     "builtins.min": _b_minmax("min"),
     "builtins.max": _b_minmax("max"),
     "builtins.bytes": _b_bytes,
+    "builtins.bytearray": _b_bytearray,
     "builtins.print": _print,
     "builtins.globals": _globals,
     "builtins.vars": _vars,
@@ -1402,7 +1477,8 @@ def msg_method(interp, m: Msg, name: str, args: list, kwargs: dict) -> Any:
     if name == "SerializeToString":
         det = kwargs.get("deterministic", None)
         interp.emit("serialize", msg=m, deterministic=det)
-        return ExtObj("bytes:frame", {"msg": copy_msg(interp, m), "deterministic": det})
+        size = getattr(interp, "forced_frame_sizes", {}).get(m.uid)
+        return ExtObj("bytes:frame", {"msg": copy_msg(interp, m), "deterministic": det, "size": size})
     if name == "ClearField":
         fname = args[0]
         m.fields.pop(fname, None)
@@ -1894,8 +1970,22 @@ def _io_method(interp, o: ExtObj, name: str, args: list, kwargs: dict) -> Any:
             if name != "peek" and isinstance(root.attrs["pos"], int) and (root.attrs["pos"] >= len(hdr) or not isinstance(n, int) or root.attrs.get("own_reader")):
                 # pyjelly reads frame bytes itself: opaque chunks; a one-byte read is a final varint byte (value 5)
                 root.attrs["own_reader"] = True
+                if n == 0:
+                    # the body of a zero-length frame (or a no-op read)
+                    fr = root.attrs.pop("empty_frame_body", None)
+                    return ExtObj("bytes:chunk", {"stream": root, "n": 0, "exact": True, "via": name, "data": b"", "frame": fr})
+                root.attrs.pop("empty_frame_body", None)
                 if not _frames_remaining(interp, root):
                     return b""
+                if n == 1:
+                    # one length-prefix byte (frames of the model are shorter than 128 bytes): 0 for a frame without
+                    # rows and metadata, which is thereby consumed entirely
+                    nxt = root.attrs.get("peeked")
+                    if isinstance(nxt, Msg) and not _msg_has_content(nxt):
+                        root.attrs.pop("peeked")
+                        root.attrs["empty_frame_body"] = nxt
+                        interp.emit("frame_pull", got=True, frame=nxt, own_reader=True, empty=True)
+                        return ExtObj("bytes:chunk", {"stream": root, "n": 1, "exact": exact, "via": name, "data": b"\x00"})
                 return ExtObj("bytes:chunk", {"stream": root, "n": n, "exact": exact, "via": name, "data": b"\x05" if n == 1 else None})
             if name == "peek":
                 # peek returns the whole buffered chunk (at least n bytes when exact), not just n bytes
@@ -2222,7 +2312,7 @@ def truth_ext(interp, v: ExtObj, tag: str) -> bool:
     if v.kind == "bytes:header":
         return bool(v.attrs["data"])
     if v.kind == "bytes:chunk":
-        return True
+        return v.attrs.get("data") != b""
     if v.kind in ("bytes:frame", "bytes:all", "bytes:encoded"):
         return interp.decide(("truth", v.uid), f"{tag}:nonempty bytes")
     return True
